@@ -1,5 +1,5 @@
 #!/usr/bin/env python3
-"""Round 6 (one seed per property, id <PROP>-11): copy /tmp/mut6/<PROP>/OUT into /verif/seeded/<PROP>-11/
+"""Rounds 6 and 7 (one seed per property, ids <PROP>-11 / <PROP>-12; scratch in /tmp/mut6, /tmp/mut7): copy /tmp/mut6/<PROP>/OUT into /verif/seeded/<PROP>-11/
 with meta.json; check results are read from /tmp/mt6_<PROP>/results.jsonl (tools/seedrun.py with SEEDRUN_MT)."""
 import json, os, shutil, glob
 NEEDS = {
@@ -11,25 +11,33 @@ NEEDS = {
  "C14-11": "Read::read goes through fill_buf()/consume(): needs wrapped contents and a destination longer than the front segment; read returns fewer than min(dst.len(), len) bytes",
  "C19-11": "Drain::as_mut_slices computes (start + iter.len()) % N instead of add_mod: needs N within a few units of usize::MAX (zero-sized element), start just below N (push_front from empty) and a dropped drain with >= 2 un-yielded elements straddling the physical end; debug: overflow panic, release: too few destructors",
  "C20-11": "make_contiguous contiguity test `start < end || start == 0`: needs contiguous contents that end exactly at the array end with start > 0 (fill, pop_front k times); every element is rotated although nothing was wrapped",
+ "C05-12": "truncate_front advances start after drop_range instead of before (size is still shrunk before): needs a destructor panic during truncate_front(len) with len > 0 (directly or via an overflowing extend_from_slice); afterwards the already destroyed front elements are exposed as live and destroyed again",
+ "C06-12": "extend_from_slice (other.len() < N branch) sets size once at the end instead of after each spare segment: needs free space that wraps the array end and a clone() panic while filling the second segment; the clones already written to the first segment are never dropped",
+ "C07-12": "Iter::advance_back_by empties `left` before computing how much of `right` to keep: needs wrapped contents and range(a..b) whose end falls inside the first segment; range() then disagrees with range_mut()/to_vec or panics with a subtraction overflow",
+ "C09-12": "Drain::as_mut_slices (used by Drain::drop) ends at range.end instead of iter.end: needs at least one next_back() and then an early drop with items still un-yielded; the back-yielded elements are destroyed a second time",
+ "C16-12": "embedded-io(-async) BufRead::consume clamps amt to the front segment length instead of len(): needs wrapped contents with a non-empty back segment and consume(amt) with amt larger than the front segment; diverges from std::io::BufRead::consume",
 }
 for sid, needs in sorted(NEEDS.items()):
-    prop = sid.split("-")[0]
-    d = f"/tmp/mut6/{prop}/OUT"
+    prop, k = sid.split("-")
+    rnd = {"11": "6", "12": "7"}[k]
+    d = f"/tmp/mut{rnd}/{prop}/OUT"
+    if not os.path.isdir(d):
+        continue   # already adopted, scratch removed
     out = f"/verif/seeded/{sid}"
     os.makedirs(out, exist_ok=True)
     for f in ("patch.diff", "demo.rs", "notes.md"):
         shutil.copy(os.path.join(d, f), os.path.join(out, f))
     res = {}
-    for f in glob.glob(f"/tmp/mt6_{prop}/results*.jsonl"):
+    for f in glob.glob(f"/tmp/mt{rnd}_{prop}/results*.jsonl"):
         for l in open(f):
             r = json.loads(l)
             if r["seed"] == sid:
                 res[(r["prop"], r.get("tier", "quick"), r.get("cfg"))] = r
     meta = {
         "id": sid, "breaks_property": prop,
-        "origin": "independent sub-agent given only the property text and a scratch worktree of /repo (round 6)",
+        "origin": "independent sub-agent given only the property text and a scratch worktree of /repo (round " + rnd + ")",
         "needs_to_manifest": needs,
-        "confirmed_by": "tools/confirm_seed.py patch.diff demo.rs (scratch worktree: demo passes unchanged; existing suite passes with the change; demo fails with the change)",
+        "confirmed_by": "tools/confirm_seed.py patch.diff demo.rs" + (" --features embedded-io" if prop == "C16" else "") + " (scratch worktree: demo passes unchanged; existing suite passes with the change; demo fails with the change)",
         "check_runs": [{"check": pp, "tier": tier, "configurations": cfg or "all", "verdict": r["verdict"], "first_signatures": r["sigs"][:3]}
                        for (pp, tier, cfg), r in sorted(res.items(), key=lambda kv: (kv[0][0], kv[0][1], kv[0][2] or ""))],
     }
